@@ -12,6 +12,13 @@ def correspondence(ctx):
     for kind in ("first", "last", "random"):
         cases.insert(0, {"list": ["", "a"], "length": 3, "sep": ("char", ""), "cap": "none", "budget": chargen.DEFAULT_BUDGET,
                          "words": wlgen.make_tape(ctx.rng, 2, 3, ("char", ""), "none", kind), "meta": {"corpus": "F7", "tape_kind": kind}})
+    # entries that are not valid UTF-8 (a Latin-1 word file): String() is still the concatenation of the token values, byte for byte
+    for l in ([b"caf\xe9", b"ab", b"\xff\xfe"], [b"na\xefve", b"x\xc3", b"ok"]):
+        for cap in ("none", "first"):
+            for kind in ("first", "last", "random"):
+                cases.append({"list": l, "length": 3, "sep": ("char", "-"), "cap": cap, "budget": chargen.DEFAULT_BUDGET,
+                              "words": wlgen.make_tape(ctx.rng, len(l), 3, ("char", "-"), cap, kind),
+                              "meta": {"list": [w.hex() for w in l], "corpus": "entries that are not valid UTF-8", "tape_kind": kind, "cap": cap, "length": 3}})
     ctx.wl_results = wlgen.run_wlgen_family(ctx, cases)
     ctx.wl_big = wlgen.run_big_lists(ctx)
     for c, a, b in ctx.wl_results:
@@ -36,7 +43,7 @@ def oracle(ctx, deep):
         if a is None:
             continue
         order, titles, rest = wlgen.parse_pre(a)
-        line = wlgen.wlgen_line(c["list"], c["length"], c["sep"], c["cap"], c["budget"], c["words"], shadow=c.get("shadow"))
+        line = wlgen.case_line(c)
         base = {"case": c["meta"], "line": line, "observed": a}
         if "RETURNED-PASSWORD-CHANGED-BY-A-LATER-CALL" in a:
             ctx.violations.append(dict(base, finding_key="C05-held", what="a password returned earlier no longer has its tokens after a later Generate call on the same recipe (the returned value is not the caller's own)"))
